@@ -1,5 +1,6 @@
 import XzVerif.Proofs.XzSound
 import XzVerif.Proofs.Segment
+import XzVerif.Proofs.Prefix
 /-
   C05 — A truncated stream is never mistaken for a complete one (.xz, LZMA2, .lzma).
 
@@ -10,10 +11,22 @@ import XzVerif.Proofs.Segment
   decoder reads every byte the encoder wrote, so no proper prefix of a segment lets the decoder
   finish (a shorter input runs dry and yields unexpectedEOF in `decStep`).
 
-  What is not yet a theorem: the prefix-freeness of the whole container language, i.e. that a
-  proper prefix of a valid single stream can never *itself* satisfy (a)–(c).  That gap is closed
-  per run by the exhaustive enumeration of every cut position of every base stream through the
-  real readers and the model (correspondence + direct oracle).  Hence `_partial`.
+  **Prefix-freeness** (the property itself, for the reader models, every stream, every cut — no bound):
+  * `C05_lzma2_prefix_rejected` / `C05_lzma2_prefix_output`: decoding any proper prefix of a well-formed LZMA2
+    chunk sequence never ends cleanly (format rules and Go rules), and what is delivered before the failure is a
+    prefix of the content;
+  * `C05_lzma_prefix_rejected_unknown` / `_known`: the same for classic .lzma streams in all three end modes;
+  * `C05_xz_prefix_rejected`: no proper prefix of a single .xz stream is accepted, in multi-stream and in
+    SingleStream mode;
+  * `C05_xz_chain_cut_only_at_boundaries`: in a chain of streams with padding a cut is accepted only at the end
+    of a stream or at a 4-byte step of the padding behind it (the accepted prefix is itself a well-formed chain).
+  The proofs rest on extension stability of every reader function (`Proofs/Stability.lean`: the range decoder
+  run on `l ++ x` either equals the run on `l` with `x` left over or the short run ends with unexpectedEOF and a
+  history that is a prefix of the long run's) and on the round-trip theorems.
+  What remains `partial`: "well-formed" is the model emitter's layout (any chunk/block/container layout the
+  format allows, but foreign byte-level encodings of the same operations are covered by correspondence: every
+  cut of every base stream incl. the liblzma corpus runs through the real readers and the model), and
+  model = Go is the correspondence.
 -/
 namespace Props.C05
 open Xz Lzma Rc
@@ -59,5 +72,52 @@ theorem C05_dry_input_is_unexpected_eof (d : Dec) (hr : d.range < 2 ^ 24) (hi : 
   unfold Dec.norm
   have : d.range < 16777216 := by simpa using hr
   simp [this, hi]
+
+/-! ### prefix-freeness -/
+
+theorem C05_lzma2_prefix_rejected (strict : Bool) (cap : Nat) (cs : Array Lzma2.Chunk)
+    (hok : Lzma2.ChunksOk strict (Lzma2.e0 cap) .init cs.toList) (k : Nat)
+    (hk : k < (Lzma2.emit cap (cs.push { kind := .eos, usize := 0 })).size) :
+    (Lzma2.decode strict cap ((Lzma2.emit cap (cs.push { kind := .eos, usize := 0 })).extract 0 k) 0 ByteArray.empty).2 ≠ .eof :=
+  Lzma2.lzma2_prefix_rejected strict cap cs hok k hk
+
+theorem C05_lzma2_prefix_output (strict : Bool) (cap : Nat) (cs : Array Lzma2.Chunk)
+    (hok : Lzma2.ChunksOk strict (Lzma2.e0 cap) .init cs.toList) (k : Nat)
+    (hk : k < (Lzma2.emit cap (cs.push { kind := .eos, usize := 0 })).size) :
+    let full := (cs.foldl Lzma2.emitChunk (Lzma2.e0 cap)).h.out
+    let got := (Lzma2.decode strict cap ((Lzma2.emit cap (cs.push { kind := .eos, usize := 0 })).extract 0 k) 0 ByteArray.empty).1.h.out
+    got.size ≤ full.size ∧ got = full.extract 0 got.size :=
+  Lzma2.lzma2_prefix_output strict cap cs hok k hk
+
+theorem C05_lzma_prefix_rejected_unknown (cfgCap : Nat) (hdr : Lzma1.Header) (ops : List RawOp)
+    (hlc : hdr.props.lc ≤ 8) (hlp : hdr.props.lp ≤ 4) (hpb : hdr.props.pb ≤ 4) (hdc : hdr.dictCap < 2 ^ 32)
+    (hcfg : cfgCap ≤ max hdr.dictCap 4096)
+    (hops : OpsOk {} { out := .empty, dictStart := 0, cap := max cfgCap (max hdr.dictCap 4096) } ops)
+    (hsize : hdr.size = none) (k : Nat) (hk : k < (Lzma1.encode hdr ops.toArray true).size) :
+    (Lzma1.read cfgCap ((Lzma1.encode hdr ops.toArray true).extract 0 k)).status ≠ .eof :=
+  Lzma1.lzma_prefix_rejected_unknown cfgCap hdr ops hlc hlp hpb hdc hcfg hops hsize k hk
+
+theorem C05_lzma_prefix_rejected_known (cfgCap : Nat) (hdr : Lzma1.Header) (ops : List RawOp) (marker : Bool)
+    (hlc : hdr.props.lc ≤ 8) (hlp : hdr.props.lp ≤ 4) (hpb : hdr.props.pb ≤ 4) (hdc : hdr.dictCap < 2 ^ 32)
+    (hcfg : cfgCap ≤ max hdr.dictCap 4096)
+    (hops : OpsOk {} { out := .empty, dictStart := 0, cap := max cfgCap (max hdr.dictCap 4096) } ops)
+    (hsize : hdr.size = some
+      (finalH {} { out := .empty, dictStart := 0, cap := max cfgCap (max hdr.dictCap 4096) } ops).out.size)
+    (h63 : (finalH {} { out := .empty, dictStart := 0, cap := max cfgCap (max hdr.dictCap 4096) } ops).out.size
+      < 2 ^ 63) (k : Nat) (hk : k < (Lzma1.encode hdr ops.toArray marker).size) :
+    (Lzma1.read cfgCap ((Lzma1.encode hdr ops.toArray marker).extract 0 k)).status ≠ .eof :=
+  Lzma1.lzma_prefix_rejected_known cfgCap hdr ops marker hlc hlp hpb hdc hcfg hops hsize h63 k hk
+
+theorem C05_xz_prefix_rejected (strict : Bool) (cfgCap : Nat) (single : Bool) (s : Stream) (hok : StreamOk strict s)
+    (hcap : CapOk strict cfgCap s) (hpad : s.padAfter = 0) (k : Nat) (hk : k < (emitStream s).size) :
+    (read strict cfgCap single ((emitStream s).extract 0 k)).status ≠ .eof :=
+  xz_prefix_rejected strict cfgCap single s hok hcap hpad k hk
+
+theorem C05_xz_chain_cut_only_at_boundaries (strict : Bool) (cfgCap : Nat) (ss : List Stream) (hne : ss ≠ [])
+    (hok : ∀ s ∈ ss, StreamOk strict s ∧ CapOk strict cfgCap s) (k : Nat) (hk : k ≤ (emitL ss).size)
+    (hclean : (read strict cfgCap false ((emitL ss).extract 0 k)).status = .eof) :
+    ∃ ss' : List Stream, ss' ≠ [] ∧ (∀ s ∈ ss', StreamOk strict s ∧ CapOk strict cfgCap s) ∧
+      (emitL ss).extract 0 k = emitL ss' ∧ ss'.length ≤ ss.length :=
+  xz_chain_prefix_accepted_only_at_boundaries strict cfgCap ss hne hok k hk hclean
 
 end Props.C05
